@@ -38,6 +38,8 @@ HASH_SHAPES = {
     "SHA3-256": "^[a-fA-F0-9]{64}$", "SHA3-512": "^[a-fA-F0-9]{128}$", "SHA-224": "^[a-fA-F0-9]{56}$", "SHA-384": "^[a-fA-F0-9]{96}$",
     "SHA3-224": "^[a-fA-F0-9]{56}$", "SHA3-384": "^[a-fA-F0-9]{96}$", "RIPEMD-160": "^[a-fA-F0-9]{40}$", "WHIRLPOOL": "^[a-fA-F0-9]{128}$",
     "TLSH": "^[a-fA-F0-9]{70}$",
+    # MD6 digests have a chosen length (1-512 bits); whatever the length, the value is written in hexadecimal
+    "MD6": "^(?:[a-fA-F0-9]{2})+$",
 }
 # shapes only *generated* (validator requires just a non-empty string for these)
 HASH_GEN_ONLY = {"SSDEEP": "ssdeep", "ssdeep": "ssdeep", "MD6": "hex32"}
